@@ -15,6 +15,14 @@ checks = {
    text="Seeded search over operation histories x read schedules x constructors on the real DeferredReader, each checked after every operation against a Vec+cursor reference model (window content, position, mark, flags, parked error, request results). Evidence, not proof: histories are sampled, not enumerated.",
    note="Trusted: the simulated source's own log (bytes delivered), std's BufReader/Chain/Cursor, the reference model (~100 lines). Both native builds (debug assertions + overflow checks on / off).",
    tech="deterministic simulation: seeded operation histories on the real reader over a simulated Read seam, reference-model refinement check after every step"),
+ "C08": dict(cat="exploration", ref="DESIGN.md §4 C08",
+   text="Two clauses under seeded constructors, chunk sizes and read plans (locations depend on mark/line bookkeeping that interacts with refills). (a) Range: every SyntaxError of all seven parsers on valid, mutated and arbitrary inputs must lie inside the input. (b) Exact: grammar-valid documents corrupted at one generator-known token with a corruption from an unambiguous catalogue must be rejected on that token's line with the column on the token. Sampled, not exhaustive.",
+   note="Trusted: the generators' token spans (validated: every generated document parses to a clean end) and the catalogue's claim that the grammar leaves no other place for the error. Binary AIGER uses the weakened range rule (0x0a bytes in the and-gate section are data).",
+   tech="deterministic simulation: real parsers over a simulated Read seam with seeded chunking; absolute range oracle plus generator-known token spans"),
+ "C09": dict(cat="exploration", ref="DESIGN.md §4 C09",
+   text="Parser level: grammar-valid documents of the six streaming parsers are served by a simulated line-buffered peer that releases the next line only after it has been handed every item completed by the lines released so far; a read() while an item is owed is a deadlock of that protocol (= waiting for bytes beyond the completing line). Reader level: on seeded operation histories the source's call log is checked for exactly one successful read per refill, no read when buffered data suffices, none after EOF/error.",
+   note="Trusted: item completion offsets from the generators (validated against the number of handed-out items), the peer, the source log.",
+   tech="deterministic simulation: two-party lock-step protocol between a simulated line-buffered producer and the real streaming parsers; read-call accounting on the simulated source"),
  "C11": dict(cat="exploration", ref="DESIGN.md §4 C11",
    text="Seeded search over operation histories x sink behaviours (accept-all, short writes, Interrupted, Ok(0), errors at any call) x buffer capacities (0..300 via the verif hook, and the shipped 16 KiB) on the real DeferredWriter, checked step by step against a byte-stream model and the sink's call log; the real format writers are part of the workload. Evidence, not proof.",
    note="Trusted: std::fmt for expected integer text, std::io::Write::write_all, the model. Failing-sink 'selection' clause is a subsequence match over random payload bytes (see evidence assumptions).",
